@@ -33,6 +33,10 @@ func init() {
 func runC09(w *World, r *Report) {
 	hrRemedyChainWalksAll(w, r, "R6")
 	hrWildcardConstant(w, r, "R6")
+	hrVersionBumpReturnsPrevious(w, r, "R6")
+	hrCfgEngineHeadersKept(w, r, "R7")
+	// the remedy is found for the request: the policy-tree lookup (C13.R3)
+	r.Borrow(w, runC13, map[string]string{"R3": "R6"})
 	r.Borrow(w, c11ClockKeepsMonotonicReading, map[string]string{"R4": "R6"})
 	hrTooManyRequestsStatus(w, r, "R6")
 	hrIdentityHasher(w, r, "R5")
